@@ -389,6 +389,82 @@ func c07ConcSetup(prm c07ConcParams) func(c *fw.Ctx, name string) explore.Setup 
 	}
 }
 
+// write side: connection A (client: its bufio.Writer is pooled) has a writer
+// parked inside a transport write, another call on A gives up waiting for the
+// frame lock, A is closed, and a new client B is opened and writes. B's wire
+// must carry only B's data and B's calls must succeed.
+type c07WParams struct {
+	K connCfg
+}
+
+func (p c07WParams) name() string { return "wconc/" + p.K.String() }
+
+func c07WSetup(prm c07WParams) func(c *fw.Ctx, name string) explore.Setup {
+	return func(c *fw.Ctx, name string) explore.Setup {
+		return func(w *vs.World) func(bool) {
+			k := prm.K
+			vsync.PoolLogging = true
+			pa, pb := vpipe.New(), vpipe.New()
+			pa.Window = 1000
+			var bErrs []error
+			w.GoHarness("main", true, func() {
+				a := mkConn(pa, k)
+				bg := vctx.Background()
+				w.GoHarness("writerA", true, func() { a.Write(bg, websocket.MessageBinary, bytes.Repeat([]byte{'A'}, 2200)) })
+				ctx, cancel := vctx.WithCancel(bg)
+				cancel() // a context that is already over: the call gives up as soon as it has to wait for a lock
+				w.GoHarness("failerA", true, func() { a.Ping(ctx) })
+				w.GoHarness("closerA-then-B", true, func() {
+					a.CloseNow()
+					// a new client picks up what A returned to the pools
+					b := mkConn(pb, k)
+					for i := 0; i < 2; i++ {
+						bErrs = append(bErrs, b.Write(bg, websocket.MessageBinary, bytes.Repeat([]byte{'B'}, 300)))
+					}
+					b.CloseNow()
+				})
+			})
+			return func(complete bool) {
+				if !complete {
+					return
+				}
+				role := k.String()
+				if w.Panic != "" {
+					violate(c, w, name, "C07/panic/wconc/"+role, w.Panic)
+					return
+				}
+				if w.Deadlock || w.HorizonHit {
+					c.OutcomeStr(name + "|stuck")
+					return
+				}
+				c.OutcomeStr(fmt.Sprintf("%s|berr=%v|bout=%d", name, bErrs, len(pb.Out)/1000))
+				for i, err := range bErrs {
+					if err != nil {
+						violate(c, w, name, "C07/other-connection-disturbed/write/"+role, fmt.Sprintf("connection B (fresh, healthy transport) failed its write %d with %q while connection A was being closed: they share a pooled object", i, err))
+						return
+					}
+				}
+				res := frame.Validate(pb.Out, frame.StreamRules{SenderIsClient: k.Client})
+				for _, v := range res.Violations {
+					violate(c, w, name, "C07/foreign-bytes-on-the-wire/"+role, fmt.Sprintf("connection B's transport carries a malformed stream (%v): bytes of another connection were flushed into it", v))
+					return
+				}
+				for _, m := range res.Messages {
+					for _, by := range m.Payload {
+						if by != 'B' {
+							violate(c, w, name, "C07/foreign-bytes-on-the-wire/"+role, fmt.Sprintf("connection B's transport carries a message containing byte %q; B only ever wrote 'B'", by))
+							return
+						}
+					}
+				}
+				if msg := c07PoolInvariant(); msg != "" {
+					violate(c, w, name, "C07/pool-double-put/wconc/"+role, msg)
+				}
+			}
+		}
+	}
+}
+
 func c07Scenarios(tier string) []scenario {
 	var scs []scenario
 	depth := 3
@@ -420,6 +496,14 @@ func c07Scenarios(tier string) []scenario {
 		}
 	}
 	gen(nil, "AB")
+	for _, k := range []connCfg{{Client: true}, {Client: false}} {
+		prm := c07WParams{K: k}
+		pw := explore.Config{P: 2, Horizon: 60e9}
+		if tier == "thorough" {
+			pw.P = 2
+		}
+		scs = append(scs, scenario{Name: prm.name(), Cfg: pw, Setup: c07WSetup(prm)})
+	}
 	ks := []connCfg{{Client: false, Flate: true}, {Client: true, Flate: true}, {Client: false, Flate: true, CNCT: true, SNCT: true}, {Client: true, Flate: true, CNCT: true, SNCT: true}, {Client: true}}
 	for _, k := range ks {
 		for i, pr := range progs {
@@ -435,7 +519,35 @@ func c07Scenarios(tier string) []scenario {
 	return scs
 }
 
+// c07RaceScenarios: pooled objects used after they were returned are visible
+// to the race detector even when no scheduling point lies inside the window
+// (the Put->Get edge orders the new owner only after the Put, not after the old
+// owner's later accesses).
+func c07RaceScenarios(tier string) []scenario {
+	var out []scenario
+	add := func(list []scenario, keep func(string) bool) {
+		for _, sc := range list {
+			if !keep(sc.Name) {
+				continue
+			}
+			sc.Group = ""
+			sc.Cfg.P = 1
+			if tier == "thorough" {
+				sc.Cfg.P = 2
+			}
+			out = append(out, raceWrap("C07", sc))
+		}
+	}
+	add(c19Scenarios(tier), func(n string) bool { return strings.HasPrefix(n, "pool-none/") || strings.HasPrefix(n, "pool-valid/") })
+	add(c07Scenarios(tier), func(n string) bool { return n == "conc-CloseNow/client" || n == "wconc/client" })
+	return out
+}
+
 func init() {
+	fw.Register(fw.Part{Prop: "C07R", Name: "s.race",
+		Units:  func(tier string) []fw.Unit { return scenarioUnits(c07RaceScenarios(tier)) },
+		Replay: replayFn(c07RaceScenarios),
+	})
 	fw.Register(fw.Part{Prop: "C07", Name: "s.pools",
 		Units:  func(tier string) []fw.Unit { return scenarioUnits(c07Scenarios(tier)) },
 		Replay: replayFn(c07Scenarios),
